@@ -282,7 +282,7 @@ def check(rep, tier, seed, specs=None, n_override=None):
                 allh.append(ops)
         fixed = random.Random(12)
         specs = []
-        n = n_override or (240 if quick else 6000)
+        n = n_override or (1000 if quick else 6000)
         for i in range(n):
             r = fixed if i < n // 2 else rng
             ops = r.choice(allh)
